@@ -36,13 +36,13 @@ CONFIGS = {
     "MC_Teardown": dict(CfgSet="TinyCfg", MaxWrites=1, Closers='{"A"}', Faults='{"cutsrc", "endsrc", "cutsink", "softcut"}', MuxDroppers='{"A", "B"}', MaxHandles=1, MaxCtr=1),
     # C07 / C15 / C08: a pending stream or bind request is given up (timeout, select!) at every point
     "MC_Cancel_q": dict(CfgSet="CancelCfgs", Openers='{"A"}', MaxOpens=1, Binders='{"A"}', MaxBinds=1, Cancellers='{"A"}', MaxWrites=0, MaxHandles=1, MaxCtr=2, Ids="{1, 2}"),
-    "MC_Cancel": dict(CfgSet="BindCfgs", Openers='{"A", "B"}', MaxOpens=1, Binders='{"A"}', MaxBinds=1, Cancellers='{"A"}', MaxWrites=1, MaxHandles=2, MaxCtr=3, Ids="{1, 2}"),
+    "MC_Cancel": dict(CfgSet="BindCfgs", Openers='{"A", "B"}', MaxOpens=1, Binders='{"A"}', MaxBinds=1, Cancellers='{"A"}', MaxWrites=0, MaxHandles=2, MaxCtr=3, Ids="{1, 2}"),
     # C11: datagram bursts against small buffers, interleaved with a stream
     "MC_Dgram_q": dict(CfgSet="DgCfgs", DgSenders='{"A", "B"}', MaxDgrams=2, MaxWrites=1, MaxCtr=5, MaxOpens=1, MaxHandles=1),
     "MC_Dgram": dict(CfgSet="DgCfgs", DgSenders='{"A", "B"}', MaxDgrams=3, MaxWrites=2, MaxCtr=7, MaxOpens=1, MaxHandles=1),
     # C15: bind requests, every answer
     "MC_Bind_q": dict(CfgSet="BindCfgs", Binders='{"A"}', MaxBinds=2, MaxCtr=3, MaxOpens=1, MaxWrites=0, MaxHandles=1, Ids="{1, 2}"),
-    "MC_Bind": dict(CfgSet="BindCfgs", Binders='{"A", "B"}', MaxBinds=2, MaxCtr=3, MaxOpens=0, Ids="{1, 2}", MuxDroppers='{"B"}'),
+    "MC_Bind": dict(CfgSet="BindCfgs", Binders='{"A", "B"}', MaxBinds=2, MaxCtr=3, MaxOpens=0, Ids="{1, 2}"),
     # C13: the acceptor bridges its stream to a scripted local side; every environment at every poll
     "MC_Bridge_q": dict(CfgSet="TinyCfg", MaxWrites=1, Bridgers='{"B"}', Closers='{"A"}', MaxHandles=1, MaxCtr=1),
     "MC_Bridge": dict(CfgSet="CloseCfgs", MaxWrites=2, Bridgers='{"B"}', Closers='{"A"}', MaxHandles=1, MaxCtr=1),
